@@ -44,8 +44,21 @@ func Main(replay func(bi int, beh []Step, in *Input, res *Result)) {
 	total := &Result{}
 	chunk := in.CfgInt("Chunk", 25)
 	n := len(in.Behaviours)
+	// optional bounds (config): after StopAfterViolations violations, or after BudgetS seconds, the remaining chunks are
+	// not run; how many behaviours were skipped is reported in the counters (the driver decides what that means)
+	stopAfter := in.CfgInt("StopAfterViolations", 0)
+	budget := time.Duration(in.CfgInt("BudgetS", 0)) * time.Second
+	began := time.Now()
 	for lo := 0; lo < n; lo += chunk {
 		hi := min(lo+chunk, n)
+		if stopAfter > 0 && len(total.Violations) >= stopAfter {
+			total.Count("skipped_after_violations", n-lo)
+			break
+		}
+		if budget > 0 && time.Since(began) > budget {
+			total.Count("skipped_budget", n-lo)
+			break
+		}
 		if r, _ := child(lo, hi, in); r != nil {
 			merge(total, r)
 			continue
